@@ -17,7 +17,7 @@ LEVEL = "exploration"
 RULE = (
     "Part resume_equals_uninterrupted (crash points x configurations): Hypothesis draws a coupled configuration (2-D NS with a "
     "circular cylinder / 3-D NS with a sphere; forcing on; free stream, filter type/order, Poisson solver, zone width in {0,2}, "
-    "precision, nu, rho, virtual-boundary coefficients, spring), initial fields, K <= 6 coupled steps and a checkpoint index k in "
+    "precision, nu, rho, virtual-boundary coefficients, spring, body speed scale 1..1e-6 i.e. creeping bodies), initial fields, K <= 6 coupled steps and a checkpoint index k in "
     "[0,K] (every k in the thorough tier). Run A is uninterrupted and writes at step k - through EulerianFieldIO and IO, exactly as "
     "the restart example does - the public state named by the property (vorticity, velocity, time, marker position- and velocity-"
     "mismatch fields, body position/velocity as Lagrangian fields). Run B builds FRESH simulator and interaction objects, POISONS "
@@ -71,7 +71,9 @@ def _strategy(tier, var):
                 "coeffs": [draw(gen.floats(-2e3, -1.0, 32)), draw(gen.floats(-20.0, 0.0, 32))],
                 "radius": draw(gen.floats(0.15, 0.22, 32)), "body_v": draw(st.lists(gen.floats(-0.5, 0.5, 32), min_size=3, max_size=3)),
                 "spring": draw(gen.floats(0.0, 50.0, 32)), "mass": draw(gen.floats(0.5, 5.0, 32)),
-                "omega": draw(gen.floats(-2.0, 2.0, 32))}
+                "omega": draw(gen.floats(-2.0, 2.0, 32)),
+                # slow bodies: per-step marker displacements down to 1e-9 cells (creeping / nearly fixed bodies)
+                "slow": draw(st.sampled_from([1.0, 1.0, 1e-2, 1e-4, 1e-6]))}
 
     return case()
 
@@ -96,8 +98,9 @@ class Run:
         v = np.array(case["body_v"], dtype=np.float64)
         if dim == 2:
             v[2] = 0.0
-        self.body.velocity_collection[:, 0] = v
-        self.body.omega_collection[:, 0] = [0.0, 0.0, case["omega"]]
+        self.slow = float(case.get("slow", 1.0))
+        self.body.velocity_collection[:, 0] = v * self.slow
+        self.body.omega_collection[:, 0] = [0.0, 0.0, case["omega"] * self.slow]
         kw = dict(rigid_body=self.body, eul_grid_forcing_field=self.sim.eul_grid_forcing_field,
                   eul_grid_velocity_field=self.sim.velocity_field, virtual_boundary_stiffness_coeff=case["coeffs"][0],
                   virtual_boundary_damping_coeff=case["coeffs"][1], dx=self.sim.dx, grid_dim=dim, real_t=real_t,
@@ -129,6 +132,7 @@ class Run:
             acc = it.body_flow_forces[:, 0] / self.case["mass"] + self.case["spring"] * (self.x0 - b.position_collection[:, 0])
             if dim == 2:
                 acc[2] = 0.0
+            acc *= self.slow
             b.velocity_collection[:, 0] += dt * acc
             b.position_collection[:, 0] += dt * b.velocity_collection[:, 0]
             it.time_step(dt=dt)
@@ -244,10 +248,10 @@ def _resume_and_compare(case, ctx, A, dt, k, ckpt_dir):
             if not np.all(np.isfinite(b)) or err > tol:
                 raise Violation(f"resumed run differs from the uninterrupted one in '{name}' after checkpoint at step {k} of {K}: "
                                 f"max|diff| = {err:.3e} > {tol:.3e} (cfg {case['cfg']})")
-        moving = float(np.max(np.abs(A.body.velocity_collection))) > 1e-6
+        moving = float(np.max(np.abs(A.body.velocity_collection))) > 1e-6 * float(case.get("slow", 1.0))
         feature = bool(case["cfg"]["filter"]) or case["cfg"]["with_free_stream"]
         ctx.note(nontrivial=0 < k < K and moving and feature,
-                 labels=simcfg.config_labels(case["cfg"]) + [f"k{k}_of_{K}", "interior_checkpoint" if 0 < k < K else "edge_checkpoint"])
+                 labels=simcfg.config_labels(case["cfg"]) + [f"k{k}_of_{K}", f"body_speed_scale_{case.get('slow', 1.0):g}", "interior_checkpoint" if 0 < k < K else "edge_checkpoint"])
 
 
 # ------------------------------------------------------------------------------------------------
